@@ -28,3 +28,6 @@ REGISTRY["r1cs_compl"] = ("r1cs", "compl")
 REGISTRY["min_invsqrt"] = ("mincurve", "invsqrt")
 REGISTRY["bls_consts"] = ("blsconsts", None)
 REGISTRY["ark_invsqrt"] = ("arksqrt", None)
+for _m in ("sound", "compl"):
+    REGISTRY[f"r1cs_fwd_{_m}"] = ("r1csouter", f"fwd_{_m}")
+    REGISTRY[f"r1cs_outer_{_m}"] = ("r1csouter", f"outer_{_m}")
